@@ -7,7 +7,7 @@ for id in "${IDS[@]}"; do
   d=seeded/$id
   if [ "$(jq -r '.retired // empty' $d/meta.json)" != "" ]; then echo "$id: retired (see meta.json)"; continue; fi
   if [ "$(jq -r '.detection.caught_by|join(",")' $d/meta.json)" = "none" ]; then echo "$id: recorded as not caught (see meta.json)"; continue; fi
-  T=/tmp/mx-$id; rm -rf $T; mkdir -p $T; cp $d/patch.diff $d/demo_test.go $d/meta.json $T/
+  T=/tmp/mx-$id-$$; rm -rf $T; mkdir -p $T; cp $d/patch.diff $d/demo_test.go $d/meta.json $T/
   # evalmut reads property/demo fields from meta.json of the round format
   python3 - "$T/meta.json" <<'PY'
 import json,sys
